@@ -207,6 +207,11 @@ def rule_pipeline(ctx):
         lines.append(line_of(hits[0]))
     if all(l is not None for l in lines):
         ctx.check(R, "into_ssa/order", lines == sorted(lines) and len(set(lines)) == len(lines), "call lines %s" % lines, site(CFG, fn))
+    # ... and nothing else changes the statements: after renaming no step removes, reorders or rewrites a statement
+    # (a phi that looks unused is still the definition another phi's argument names)
+    REMOVERS = ("retain", "retain_mut", "remove", "swap_remove", "drain", "clear", "truncate", "pop", "dedup", "dedup_by", "dedup_by_key", "split_off", "sort", "sort_by", "sort_by_key", "reverse", "swap")
+    touched = [m for m in walk(fn["body"]) if m["k"] == "MethodCall" and (m["method"] == "statements_mut" or (m["method"] in REMOVERS and re.search(r"basic_blocks|statements|stmts|block", render(m["recv"]))))]
+    ctx.check(R, "into_ssa/no-step-removes-statements", not touched, "into_ssa edits the statement lists directly: %s" % [render(m)[:60] for m in touched][:3], site(CFG, touched[0]) if touched else site(CFG, fn))
     t = render(fn["body"]).replace(" ", "")
     ctx.check(R, "into_ssa/parameters-are-version-0", sgrep.has(fn["body"], "for __n in self.parameters.iter_mut() { *__n = __n.with_version(0); }") or sgrep.has(fn["body"], "self.parameters.iter_mut().for_each(|__n| *__n = __n.with_version(0))"), "", site(CFG, fn))
     ctx.check(R, "into_ssa/declarations-replaced", sgrep.has(fn["body"], "self.declarations = ssa_impl::update_declarations(&mut self.basic_blocks, &self.parameters, __env)", sgrep.lets(fn["body"])), "", site(CFG, fn))
